@@ -12,7 +12,11 @@ use std::io::BufReader;
 
 use std::path::PathBuf;
 use std::sync::mpsc::{SendError, Sender};
-use std::sync::{Arc, LockResult, Mutex, MutexGuard};
+#[cfg(rfsm_verif)]
+use crate::verif::sync::{Mutex, MutexGuard};
+use std::sync::{Arc, LockResult};
+#[cfg(not(rfsm_verif))]
+use std::sync::{Mutex, MutexGuard};
 
 #[cfg(feature = "Debug")]
 use crate::common::debug;
